@@ -1,10 +1,11 @@
 #!/bin/bash
-# usage: tools/soak.sh "<seeds>" "<props>" [count-multiplier]
-# runs quick checks on several seeds and prints only verdict lines
+# usage: tools/soak.sh "<seeds>" "<props>" [tier]
+# runs checks on several seeds and prints only verdict lines
 SEEDS=${1:-"11 12 13"}
-PROPS=${2:-"C01 C02 C03 C04 C06 C07 C08 C09 C11 C12 C13 C14 C15 C17 C18"}
+PROPS=${2:-"C01 C02 C03 C04 C05 C06 C07 C08 C09 C10 C11 C12 C13 C14 C15 C16 C17 C18"}
+TIER=${3:-quick}
 for p in $PROPS; do
   for s in $SEEDS; do
-    EVOSIM_NO_EVIDENCE=1 /venv/bin/python -m evosim check $p --seed $s 2>&1 | grep -E "^VIOLATION|^  rule=|seed=|HARNESS" | cut -c1-700
+    EVOSIM_NO_EVIDENCE=1 /venv/bin/python -m evosim check $p --seed $s --tier $TIER 2>&1 | grep -E "^VIOLATION|^  rule=|seed=|HARNESS" | cut -c1-900
   done
 done
